@@ -38,6 +38,8 @@ macro_rules! dispatch {
 fn main() {
     let args: Vec<String> = std::env::args().skip(1).collect();
     let report = Report::take_over_stdio();
+    // hooked and un-hooked monotonic reads share one base (core/clock.rs, seam S1d)
+    let _ = std::thread::spawn(crate::core::clock::init_base).join();
     // library panics are caught and judged; keep them off the (already silenced) stderr
     if std::env::var("VERIF_KEEP_STDIO").is_err() {
         std::panic::set_hook(Box::new(|_| {}));
